@@ -17,6 +17,7 @@ type SVal struct {
 	Lit   *big.Int   // untyped integer literal
 	Tuple []SVal
 	Loc   *Term // address of the lvalue, when known (for modifies / &x)
+	Dyn   bool  // value must be re-read from memory at Loc in the state of evaluation
 }
 
 // specType is a spec-only type.
@@ -40,6 +41,7 @@ type SpecCtx struct {
 	old   *State
 	vars  map[string]SVal
 	act   *Activation // for locals in invariants
+	fvAct *Activation // for free variables of a closure under verification
 	where string
 	err   error
 }
@@ -242,7 +244,16 @@ func (c *SpecCtx) eval(e Expr) SVal {
 func (c *SpecCtx) ident(name string) SVal {
 	g := c.g
 	if v, ok := c.vars[name]; ok {
+		if v.Dyn && v.Loc != nil {
+			// a variable living in memory (captured by a closure): read it in the current state
+			return SVal{T: g.load(c.st, *v.Loc, v.Ty), Ty: v.Ty, Loc: v.Loc, Dyn: true}
+		}
 		return v
+	}
+	if c.fvAct != nil {
+		if v, ok := c.fvAct.freeVarByName(c.st, name); ok {
+			return v
+		}
 	}
 	// locals of the activation (current values)
 	if c.act != nil {
